@@ -1,4 +1,5 @@
 import UF.Compose4.EnvOfStorage
+import UF.Compose4.CacheRefine
 import UF.Props.C13
 /-
   C13 ON THE ENGINE MODELS (integration group J).  `Props/C13.lean` proves purity for the state machine
@@ -91,6 +92,22 @@ theorem c13_engine_every_oracle (io : IO) (px : E.ParseExt) (lists : List RList)
     (runHistory (envDns io px lists (PatModel.ofOracle px.ext.pat)) {} (qs.map HEv.query)).2 =
       qs.map (dnsAnswer io px lists st history) :=
   c13_engine io px lists _ rfl st hnew history qs
+
+/-- THE CACHE OF THE STATE MACHINE IS GROUP D'S STORAGE CACHE: from related states (`CacheRel`: the state
+    machine's cache serves exactly the rule objects behind what `RuleStorage.cache` holds; a new storage and the
+    empty state are related), the retrieval sub-program `get / read / put` of the state machine, run alone, hands
+    the table the pointer `RuleStorage.RetrieveRule` of group D's model returns (`retrieveFull`, before the type
+    assertion of `RetrieveNetworkRule`/`RetrieveHostRule`), and ends in related states.  `i` is any Go `int64`
+    (every index a table holds is one: `idxOf k = k.toInt`). -/
+theorem c13_cache_is_storage_cache {Re : Type} (io : IO) (px : E.ParseExt) (lists : List RList) (pm : PatModel Re)
+    (st : RuleStorage) (hinv : Storage.CacheInv io (realParser px) st) (hl : st.lists = lists)
+    (s : State Rule Re) (t : Thread Rule) (src : Src) (i : Int) (hi : (BitVec.ofInt 64 i).toInt = i)
+    (hrel : CacheRel px st s.cache) (h0 : s.closed = []) :
+    (retrieveProg (envDns io px lists pm) s t src i).2.pc =
+        .use src i ((retrieveFull io px st (BitVec.ofInt 64 i)).1.filter ((envDns io px lists pm).wants src)) ∧
+      CacheRel px (retrieveFull io px st (BitVec.ofInt 64 i)).2 (retrieveProg (envDns io px lists pm) s t src i).1.cache ∧
+      (retrieveProg (envDns io px lists pm) s t src i).1.closed = [] :=
+  retrieve_refines io px lists (envDns io px lists pm) rfl st hinv hl s t src i hi hrel h0
 
 /-! ### Non-vacuity: a concrete storage (two lists, String- and File-backed; a hosts line; a `$domain` rule; the
     same text in both lists), the network engine built from its bytes, and a history of two identical queries
